@@ -16,5 +16,20 @@ namespace xv
         register_conv_specs();
         register_red_specs();
         register_perm_specs();
+        // scalar-operand spellings (harness: one kernel call per lane): the reference of the base operation over the
+        // small pair space
+        for (const char* base : { "add", "sub", "mul", "div", "mod", "and", "or", "xor", "eq", "ne", "lt", "le", "gt", "ge" })
+            for (const char* suf : { ".rs", ".ls", ".rsa" })
+            {
+                auto it = specs().find(base);
+                if (it == specs().end())
+                    continue;
+                OpSpec s = it->second;
+                s.name = std::string(base) + suf;
+                s.space = "bin_s";
+                if (!s.fp_space.empty())
+                    s.fp_space = "bin_s";
+                specs()[s.name] = s;
+            }
     }
 }
